@@ -21,11 +21,13 @@ def _verify_one(q):
     from . import specsym, vc
     from .common import NativeServer
     eng = _engine()
+    eng.kind_gaps.clear()
     t0 = time.time()
     try:
         r = vc.verify_function(eng, q, eng.contracts[q], specsym.make_args)
         out = dict(qualname=q, obligations=r.obligations, paths=r.paths, forks=r.forks, covers=r.covers,
-                   limitation=r.limitation, source_hash=r.source_hash, wall=time.time() - t0, hints=dict(eng.hints))
+                   limitation=r.limitation, source_hash=r.source_hash, wall=time.time() - t0, hints=dict(eng.hints),
+                   kind_gaps=sorted(eng.kind_gaps))
     except CheckerError as e:
         out = dict(qualname=q, obligations=[], paths=0, forks=0, covers={}, limitation=f"checker: {e}", source_hash=None,
                    wall=time.time() - t0, hints={})
@@ -45,6 +47,13 @@ def arg_descs(contract, fork_tag, model, hints=None):
             out[name] = {"kind": "selfc", "compiled": "+compiled" in (tag or "")}
         elif contract["params"][name] == "text":
             out[name] = {"kind": "text"}
+        elif tag == "new":
+            out[name] = {"kind": "new"}
+        elif tag and tag.startswith("strs:"):
+            k = int(tag.split(":")[1])
+            out[name] = {"kind": "list", "value": [_smt_str(model.get(f"{name}{i}"), "s") for i in range(k)]}
+        elif tag == "strs+other":
+            out[name] = {"kind": "list", "value": [_smt_str(model.get(f"{name}0"), "s"), "<object>"]}
         elif tag in TYPE_NAMES:
             d = {"kind": "pregex", "type": tag}
             for k, v in model.items():
@@ -152,6 +161,10 @@ def run_functions(report, qualnames, tier="quick", bounded_limit=None, monitor=T
         report.functions[q] = {"source_sha256_16": r["source_hash"], "forks": r["forks"], "paths": r["paths"],
                                "covers": r["covers"], "regime": "proved" if not r["limitation"] else "bounded stand-in",
                                "wall_s": round(r["wall"], 2)}
+        for callee, pname, tag in r.get("kind_gaps", []):
+            a = f"{q} calls {callee} with {pname} of kind {tag}, outside the kinds that contract was verified for (assumed to hold there too)"
+            if a not in report.assumptions:
+                report.assumptions.append(a)
         failed_groups = {}
         for o in r["obligations"]:
             report.ob(o["name"], o["status"], o["backend"], o["time_s"], kind=o.get("kind", "vc"))
